@@ -1,2 +1,3 @@
+@property
 def spec(self):
     return self._neg_cache()
